@@ -1044,6 +1044,16 @@ class Interp(ExprMixin, WhileMixin):
             return bool(v.v)
         if isinstance(v, Sym) and v.op == "posindex":
             return True  # enumerate() index of an iteration after the first
+        if isinstance(v, Sym) and v.op == "setand":
+            # a & b is non-empty iff some element of the side with known elements is in the other side
+            a, b = v.args
+            for known, other in ((b, a), (a, b)):
+                items = known.args[0] if known.args and isinstance(known.args[0], tuple) else None
+                if items is not None and not any(isinstance(x, Sym) and x.op in ("elemof", "star") for x in items):
+                    for x in items:
+                        if self.contains(other, x, "set intersection"):
+                            return True
+                    return False
         if isinstance(v, Str):
             if v.is_const():
                 return bool(v.const())
